@@ -78,12 +78,13 @@ Inductive VR (H : heap) : cval -> pval -> Prop :=
 | VR_bool b : VR H (CVBool b) (PVBool b)
 | VR_int z : VR H (CVInt z) (PVInt z)
 | VR_vec l pl : Forall2 (VR H) l pl -> VR H (CVVec l) (PVVec pl)
-| VR_clo ps body rc sg n pb pr n' dfid Fd :
+| VR_clo self ps body rc sg n pb pr n' dfid Fd :
     nth_error H dfid = Some Fd ->
-    cgen (bind_sg sg ps) (n + 1) body = (pb, pr, n', true) ->
+    cgen (bind_sg (self_sg sg self n) ps) (n + 1) body = (pb, pr, n', true) ->
     (forall x p, sg x = Some p -> idx p < n) -> sg_wf sg ->
     (forall x v, lookup rc x = Some v -> exists p pv, sg x = Some p /\ Fd p = Some pv /\ VR H v pv) ->
-    VR H (CVClo ps body rc) (PVClo (n + 1) (map NParam ps) pb pr dfid).
+    Fd (NFn n) = Some (PVClo (n + 1) (map NParam ps) pb pr dfid) ->
+    VR H (CVClo self ps body rc) (PVClo (n + 1) (map NParam ps) pb pr dfid).
 
 Section CvalInd.
   Variable P : cval -> Prop.
@@ -91,14 +92,14 @@ Section CvalInd.
   Hypothesis HBool : forall b, P (CVBool b).
   Hypothesis HInt : forall z, P (CVInt z).
   Hypothesis HVec : forall l, Forall P l -> P (CVVec l).
-  Hypothesis HClo : forall ps body rc, Forall (fun xv => P (snd xv)) rc -> P (CVClo ps body rc).
+  Hypothesis HClo : forall self ps body rc, Forall (fun xv => P (snd xv)) rc -> P (CVClo self ps body rc).
   Fixpoint cval_ind' (v : cval) : P v :=
     match v with
     | CVNil => HNil | CVBool b => HBool b | CVInt z => HInt z
     | CVVec l => HVec l ((fix go (l : list cval) : Forall P l :=
                             match l with [] => Forall_nil P | a :: r => Forall_cons a (cval_ind' a) (go r) end) l)
-    | CVClo ps body rc =>
-        HClo ps body rc ((fix go (l : list (N * cval)) : Forall (fun xv => P (snd xv)) l :=
+    | CVClo self ps body rc =>
+        HClo self ps body rc ((fix go (l : list (N * cval)) : Forall (fun xv => P (snd xv)) l :=
                             match l with [] => Forall_nil _ | xv :: r => Forall_cons xv (cval_ind' (snd xv)) (go r) end) rc)
     end.
 End CvalInd.
@@ -113,7 +114,7 @@ Qed.
 
 Lemma VR_mono : forall v pv H H', Hle H H' -> VR H v pv -> VR H' v pv.
 Proof.
-  induction v as [| b | z | l IHl | ps body rc IHrc] using cval_ind'; intros pv H H' L X; inversion X; subst;
+  induction v as [| b | z | l IHl | self ps body rc IHrc] using cval_ind'; intros pv H H' L X; inversion X; subst;
     try constructor.
   - (* vec *)
     match goal with F2 : Forall2 _ l _ |- _ => revert F2 end. generalize pl. clear X.
@@ -145,7 +146,7 @@ Fixpoint VR_const (H : heap) (k : const) : VR H (of_const k) (pv_of_const k) :=
 
 Lemma VR_obs : forall v pv H, VR H v pv -> pobs_of pv = obs_of v.
 Proof.
-  induction v as [| b | z | l IHl | ps body rc _] using cval_ind'; intros pv H X; inversion X; subst; try reflexivity.
+  induction v as [| b | z | l IHl | self ps body rc _] using cval_ind'; intros pv H X; inversion X; subst; try reflexivity.
   simpl. f_equal.
   match goal with F2 : Forall2 _ l _ |- _ => revert F2 end. generalize pl. clear X.
   induction IHl as [|a r Pa Pr IHr]; intros pl0 F2; inversion F2; subst; simpl; [reflexivity|].
@@ -263,7 +264,7 @@ Section CexprInd.
   Hypothesis HDo : forall s r, P s -> P r -> P (CDo s r).
   Hypothesis HLet : forall x i b, P i -> P b -> P (CLet x i b).
   Hypothesis HCall : forall f args, Forall P args -> P (CCall f args).
-  Hypothesis HFn : forall ps body, P body -> P (CFn ps body).
+  Hypothesis HFn : forall self ps body, P body -> P (CFn self ps body).
   Hypothesis HInvoke : forall f args, P f -> Forall P args -> P (CInvoke f args).
   Fixpoint cexpr_ind' (e : cexpr) : P e :=
     match e with
@@ -275,7 +276,7 @@ Section CexprInd.
     | CCall f args =>
         HCall f args ((fix go (l : list cexpr) : Forall P l :=
                          match l with [] => Forall_nil P | a :: r => Forall_cons a (cexpr_ind' a) (go r) end) args)
-    | CFn ps body => HFn ps body (cexpr_ind' body)
+    | CFn self ps body => HFn self ps body (cexpr_ind' body)
     | CInvoke f args =>
         HInvoke f args (cexpr_ind' f)
           ((fix go (l : list cexpr) : Forall P l :=
@@ -294,7 +295,7 @@ Proof.
       destruct (cgen_list sg b1 r) as [[[? ?] b2] ?] eqn:Gr.
       cbv beta iota in G. inversion G; subst. inversion HF as [|? ? Pa Pr]; subst.
       apply Pa in Ga. apply (IHr Pr) in Gr. lia. }
-  induction e as [k0|x|c t e IHc IHt IHe|s r IHs IHr|x i b IHi IHb|f args IHargs|ps body IHbody|f args IHf IHargs]
+  induction e as [k0|x|c t e IHc IHt IHe|s r IHs IHr|x i b IHi IHb|f args IHargs|self ps body IHbody|f args IHf IHargs]
     using cexpr_ind'; intros sg n d pe n' k G; cbn [cgen] in G.
   - inversion G; lia.
   - inversion G; lia.
@@ -312,7 +313,7 @@ Proof.
     destruct (cgen_list sg n args) as [[[ds es] a1] ka] eqn:G1. cbv beta iota in G. inversion G; subst.
     eapply LL; eauto.
   - cbv zeta in G.
-    destruct (cgen (bind_sg sg ps) (n + 1) body) as [[[? ?] a1] ?] eqn:G1. cbv beta iota in G. inversion G; subst.
+    destruct (cgen (bind_sg (self_sg sg self n) ps) (n + 1) body) as [[[? ?] a1] ?] eqn:G1. cbv beta iota in G. inversion G; subst.
     apply IHbody in G1. lia.
   - destruct (cgen sg n f) as [[[? ?] a1] ?] eqn:G1.
     change (cgen_args (fun n a => cgen sg n a) args a1) with (cgen_list sg a1 args) in G.
@@ -522,7 +523,7 @@ Proof.
   pose proof (csim_list_of fuel HS) as HL.
   intros e sg n rho H fid F v tr d pe n' HR E He Hg.
   destruct (R_frame _ _ _ _ _ _ HR E) as (RA & RB & RW & RBel).
-  destruct e as [k|x|c t e|s r|x i b|f args|ps body|f args].
+  destruct e as [k|x|c t e|s r|x i b|f args|self ps body|f args].
   - (* const *)
     cbn [ceval] in He. inversion He; subst. cbn [cgen] in Hg. inversion Hg; subst.
     exists 1%nat, H, H, (pv_of_const k), [], [], F.
@@ -684,7 +685,7 @@ Proof.
   - (* fn *)
     cbn [ceval] in He. inversion He; subst v tr; clear He.
     cbn [cgen] in Hg. cbv zeta in Hg.
-    destruct (cgen (bind_sg sg ps) (n + 1) body) as [[[db eb] n1] k] eqn:Gb.
+    destruct (cgen (bind_sg (self_sg sg self n) ps) (n + 1) body) as [[[db eb] n1] k] eqn:Gb.
     cbv beta iota in Hg. injection Hg as Hg1 Hg2 Hg3 Hk. subst.
     apply andb_true_iff in Hk as [Hk Hnd]. subst k.
     pose proof (cgen_mono _ _ _ _ _ _ _ Gb) as Lb.
@@ -699,7 +700,7 @@ Proof.
     split; [rewrite peval_S_name; unfold frame_get; rewrite E1; unfold F1; rewrite set_same; reflexivity|].
     split; [reflexivity|].
     split.
-    { unfold clo. eapply (VR_clo H1 ps body rho sg n db eb n' fid F1); [exact E1|exact Gb|exact RB|exact RW|].
+    { unfold clo. eapply (VR_clo H1 self ps body rho sg n db eb n' fid F1); [exact E1|exact Gb|exact RB|exact RW| |unfold F1; apply set_same].
       intros x v Hx. destruct (RA x v Hx) as (p & pv & S1 & S2 & S3). exists p, pv.
       split; [exact S1|]. split; [|eapply VR_mono; eauto].
       unfold F1. rewrite set_other; [exact S2|]. intro X. subst p. congruence. }
@@ -713,31 +714,47 @@ Proof.
     destruct es as [|ef eargs]; [cbv beta iota in Hg; inversion Hg|].
     cbv beta iota in Hg. injection Hg as Hg1 Hg2 Hg3 Hk. subst.
     destruct (evals (ceval fuel rho) (f :: args)) as [[vsall ta]|] eqn:Ea; [|discriminate].
-    destruct vsall as [|[| | | |ps body rc] vs]; try discriminate.
-    destruct (bind_params ps vs rc) as [rho'|] eqn:Eb; [|discriminate].
+    destruct vsall as [|[| | | |self ps body rc] vs]; try discriminate.
+    destruct (bind_params ps vs (self_env self ps body rc)) as [rho'|] eqn:Eb; [|discriminate].
     destruct (ceval fuel rho' body) as [[vb tb]|] eqn:Ebody; [|discriminate]. inversion He; subst v tr; clear He.
     destruct (HL (f :: args) sg n rho H fid F _ ta d (ef :: eargs) n' HR E Ea Gl)
       as (m & H1 & H2 & pvall & t1 & t2 & F1 & X1 & P1 & T1 & V1 & E1 & A1 & B1 & N1).
     inversion V1 as [|? pvf ? pvs Vf Vs]; subst.
-    inversion Vf as [| | | |? ? ? sgc nc pb pr nc' dfid Fd Ed Gc Bc Wc Envc]; subst.
-    destruct (bind_rel H2 ps vs pvs rc sgc (restrict (nc + 1) Fd) rho' Vs Eb) as (Fc & Bp & Envp & Wp & Belp & Bndp).
-    { intros x v Hx. destruct (Envc x v Hx) as (p & pv & S1 & S2 & S3). exists p, pv.
-      split; [exact S1|]. split; [|exact S3]. unfold restrict.
-      assert (Lt : N.ltb (idx p) (nc + 1) = true) by (apply N.ltb_lt; specialize (Bc x p S1); lia).
-      rewrite Lt. exact S2. }
-    { exact Wc. }
+    inversion Vf as [| | | |? ? ? ? sgc nc pb pr nc' dfid Fd Ed Gc Bc Wc Envc Eself]; subst.
+    assert (Bc' : forall x p, self_sg sgc self nc x = Some p -> idx p < nc + 1).
+    { intros x p Hx. unfold self_sg in Hx. destruct self as [f0|]; [|specialize (Bc x p Hx); lia].
+      unfold upd in Hx. destruct (N.eqb x f0); [inversion Hx; subst; simpl; lia|specialize (Bc x p Hx); lia]. }
+    assert (Wc' : sg_wf (self_sg sgc self nc)).
+    { intros x y Hy. unfold self_sg in Hy. destruct self as [f0|]; [|apply Wc; exact Hy].
+      unfold upd in Hy. destruct (N.eqb x f0); [discriminate|apply Wc; exact Hy]. }
+    destruct (bind_rel H2 ps vs pvs (self_env self ps body rc) (self_sg sgc self nc) (restrict (nc + 1) Fd) rho' Vs Eb)
+      as (Fc & Bp & Envp & Wp & Belp & Bndp).
+    { assert (Base : forall x v, lookup rc x = Some v ->
+                exists p pv, sgc x = Some p /\ restrict (nc + 1) Fd p = Some pv /\ VR H2 v pv).
+      { intros x v Hx. destruct (Envc x v Hx) as (p & pv & S1 & S2 & S3). exists p, pv.
+        split; [exact S1|]. split; [|exact S3]. unfold restrict.
+        assert (Lt : N.ltb (idx p) (nc + 1) = true) by (apply N.ltb_lt; specialize (Bc x p S1); lia).
+        rewrite Lt. exact S2. }
+      unfold self_env, self_sg. destruct self as [f0|]; [|exact Base].
+      intros x v Hx. simpl in Hx. unfold upd. destruct (N.eqb x f0) eqn:Exf.
+      - inversion Hx; subst. exists (NFn nc), (PVClo (nc + 1) (map NParam ps) pb pr dfid).
+        split; [reflexivity|]. split; [|exact Vf]. unfold restrict.
+        assert (Lt : N.ltb (idx (NFn nc)) (nc + 1) = true) by (apply N.ltb_lt; simpl; lia).
+        rewrite Lt. exact Eself.
+      - apply Base. exact Hx. }
+    { exact Wc'. }
     set (cf := length H2). set (H' := H2 ++ [Fc]).
     assert (Ec : nth_error H' cf = Some Fc).
     { unfold H', cf. rewrite nth_error_app2 by lia. rewrite Nat.sub_diag. reflexivity. }
     assert (L2' : Hle H2 H') by (apply Hle_pres, pres_app).
-    assert (HRc : R rho' (bind_sg sgc ps) H' cf (nc + 1)).
+    assert (HRc : R rho' (bind_sg (self_sg sgc self nc) ps) H' cf (nc + 1)).
     { exists Fc. split; [exact Ec|]. split; [|split; [|split; [exact Wp|]]].
       - intros x v Hx. destruct (Envp x v Hx) as (p & pv & S1 & S2 & S3). exists p, pv.
         split; [exact S1|]. split; [exact S2|eapply VR_mono; eauto].
-      - apply Bndp; [|lia]. intros x p Hx. specialize (Bc x p Hx). lia.
+      - apply Bndp; [|lia]. exact Bc'.
       - apply Belp; [|lia]. intros p Hp. unfold restrict in Hp. destruct (N.ltb (idx p) (nc + 1)) eqn:Lt; [|congruence].
         apply N.ltb_lt in Lt. exact Lt. }
-    destruct (HS body (bind_sg sgc ps) (nc + 1) rho' H' cf Fc vb tb pb pr nc' HRc Ec Ebody Gc)
+    destruct (HS body (bind_sg (self_sg sgc self nc) ps) (nc + 1) rho' H' cf Fc vb tb pb pr nc' HRc Ec Ebody Gc)
       as (m2 & H3 & H4 & pv & tb1 & tb2 & F3 & X2 & P2 & T2 & V2 & E3 & A2 & B2 & N2).
     exists (S (Nat.max m m2)), H1, H4, pv, t1, (t2 ++ tb1 ++ tb2), F1.
     split; [apply (cexec_mono m); [lia|exact X1]|].
